@@ -391,6 +391,8 @@ func init() {
 		Rules: []Rule{
 			{ID: "C09-root", Floor: 26, Run: c09Root, Text: "[PROV]+[FIELDMAP]+[DOM] claim data literals of both kinds"},
 			{ID: "C09-count", Floor: 4, Run: c09Count, Text: "[PROV] leaf count and root from one object; certificate copies from params"},
+			{ID: "C09-until", Floor: 3, Run: shared("C09-until", c15Until), Text: "(shared with C15-until) 'latest info until block n' = last leaf in chain order with block_num <= n"},
+			{ID: "C09-exit", Floor: 11, Run: shared("C09-exit", c03LeafAgree), Text: "(shared with C03-leaf-agree) the claimed exit hashes to the deposited leaf (metadata hashing included)"},
 			{ID: "C09-finalized", Floor: 6, Run: c09Finalized, Text: "[DOM]+[PROV]+[WHO] finalized-root selection cross-checks the block hash; root/leaf chain; querier objects are stateless"},
 			{ID: "C09-leafhash", Floor: 3, Run: c09LeafHash, Text: "[LAYOUT] L1 info leaf hash: contract layout and sibling agreement"},
 			{ID: "C09-ger", Floor: 6, Run: c09GER, Text: "[LAYOUT]+[DOM] GER = keccak(mainnet‖rollup) at every site; mismatch rejected"},
